@@ -75,6 +75,13 @@ def oversize_cases(tier):
                                    sched=F.sched_str(r.choice([0, 0, 6]), [r.choice(F.TIMEOUTS)], F.random_ops(r, 4, 2)),
                                    flash=r.choice(['-', 'e' * pc, 'oedo']))
         yield 'oversize', dict(pc=pc, length=2 * size, salt=1, sched=F.sched_str(0, [], []), flash='-')
+        # the same through other kinds of path, and with file contents that look like something else than code:
+        # an excess that is all 0xff / 0x00 filler, a DFU-suffix look-alike at the end, container magic at the start
+        for j, d in enumerate([1, 16, 17, 1024, 1040, r.randrange(1, 2049)]):
+            extra_kw = [dict(via='fifo'), dict(via='symlink'), dict(tail='ff*%d' % (d + r.choice([0, 7, 2048]))), dict(tail='00*%d' % d),
+                        dict(tail='ffffffffffffffff' + '554644' + '10' + '00000000'), dict(head='44667553650100000000')][j % 6 if tier == 'quick' else r.randrange(6)]
+            yield 'oversize-odd-file', dict(pc=pc, length=size + d, salt=j, sched=F.sched_str(0, [r.choice(F.TIMEOUTS)], F.random_ops(r, 4, 2)),
+                                            flash=r.choice(['-', 'oedo']), **extra_kw)
 
 
 def run(tier, replay):
